@@ -22,13 +22,15 @@ CLAIMED = {
               "(atomic bounded FIFO + the capacity rule of the statement); executions of the real AtomicMove / FullSyncMove under the deterministic scheduler are replayed through the L2 trace specs by TLC, each atomic operation with "
               "operands and result; the five real Uni channels (all send entry points against single polls, payload handles held and released on the zero-copy kinds) are validated against the same monitor inside Trace_AbsUni.",
               "7 (C02), 4, 5", "TLA+ L2 spec + LinQueue monitor checked by TLC; trace validation of real executions (deterministic scheduler) against the L2 and L1 specs"),
-    "C03": _c("Histories of the six real Multi channel kinds (1..3 listeners created before the first send, 2 producers through every implemented entry point, fewer events than the buffer) from " + DET +
+    "C03": _c("MultiChan (TLA+, implementation shaped: one AtomicMove ring per listener + the fan-out loop over the live-listener list + create_stream_id / drop_resources / report_stream_dropped / the in-place list rebuild + wake / waker registration / cancel + the executor tasks, one action per scheduling point) is checked exhaustively by TLC, and every transition of its state graph (small configurations) is replayed into the real Arc-based atomic Multi channel, each replay validated scheduling point by scheduling point against MultiChan (Trace_MultiChan) and judged by the L1 oracle. "
+              "Histories of the six real Multi channel kinds (1..3 listeners created before the first send, 2 producers through every implemented entry point, fewer events than the buffer) from " + DET +
               ", validated by TLC against " + L1MULTI + ": each listener yields every accepted event exactly once, in each producer's order, with the same payload address for all listeners; plus one total order on the log channel.",
-              "7 (C03)", "TLC trace validation of real executions (deterministic scheduler) against the L1 TLA+ spec Trace_AbsMulti"),
-    "C04": _c("Driven streams (hand-polled tasks with tokio-like sticky wakers: park on Pending, re-poll on wake) on all five Uni and six Multi channel kinds, MAX_STREAMS 1 and 2, 2..3 producers through every entry point with the "
+              "7 (C03)", "TLA+ L2 spec MultiChan checked by TLC, its transition cover replayed into the real channel; TLC trace validation of real executions (deterministic scheduler) against the L2 spec and the L1 TLA+ spec Trace_AbsMulti"),
+    "C04": _c("MultiChan (TLA+, implementation shaped: one AtomicMove ring per listener + the fan-out loop over the live-listener list + create_stream_id / drop_resources / report_stream_dropped / the in-place list rebuild + wake / waker registration / cancel + the executor tasks, one action per scheduling point) is checked exhaustively by TLC, and every transition of its state graph (small configurations) is replayed into the real Arc-based atomic Multi channel, each replay validated scheduling point by scheduling point against MultiChan (Trace_MultiChan) and judged by the L1 oracle. "
+              "Driven streams (hand-polled tasks with tokio-like sticky wakers: park on Pending, re-poll on wake) on all five Uni and six Multi channel kinds, MAX_STREAMS 1 and 2, 2..3 producers through every entry point with the "
               "scheduler switching threads between reservation / write / publication / wake decision and consume / keep-running check / waker registration; the quiescent end state of every execution is judged by TLC "
               "(Trace_AbsUni / Trace_AbsMulti: a parked, not cancelled stream with a deliverable accepted event and no runnable thread is a lost wake-up).",
-              "7 (C04), 8 (D1)", "TLC trace validation of real executions (deterministic scheduler, manual wakers) against the L1 TLA+ specs; known finding recorded for the Uni atomic kinds"),
+              "7 (C04), 8 (D1)", "TLC trace validation of real executions (deterministic scheduler, manual wakers) against the L1 TLA+ specs; TLA+ L2 specs UniChan / MultiChan checked by TLC with their transition covers replayed into the real channels; known findings recorded for the Uni and Multi atomic kinds"),
     "C05": _c("Instrumented payloads (per-value destruction counter, alive marker) and a wrapper allocator that notices any use after its own Drop, on the Uni movable + zero-copy and the Multi arc / ogre_arc channels: "
               "handles held and released on other threads, teardown with events still buffered, refill after everything was consumed and released; every history judged by TLC (destroyed at most once, exactly once as soon as "
               "delivered and released, nothing touched after free, BUFFER_SIZE events accepted again).",
@@ -38,10 +40,11 @@ CLAIMED = {
               "current-thread runtime and on the multi-thread runtime; the logged life-cycle events are validated by TLC against Trace_AbsExecutor (close returns only after every accepted event was processed; afterwards "
               "no stream, channel closed, later sends not delivered).",
               "7 (C06), 8 (D3)", "TLA+ model CloseProto checked by TLC; TLC trace validation of gated tokio executions of the real Uni / Multi against the L1 TLA+ spec Trace_AbsExecutor"),
-    "C07": _c("cancel_all_streams issued at every point of the streams' poll steps (before the first poll, between consume and waker registration, while parked, with events buffered), with a concurrent sender, "
+    "C07": _c("MultiChan (TLA+, implementation shaped: one AtomicMove ring per listener + the fan-out loop over the live-listener list + create_stream_id / drop_resources / report_stream_dropped / the in-place list rebuild + wake / waker registration / cancel + the executor tasks, one action per scheduling point) is checked exhaustively by TLC, and every transition of its state graph (small configurations) is replayed into the real Arc-based atomic Multi channel, each replay validated scheduling point by scheduling point against MultiChan (Trace_MultiChan) and judged by the L1 oracle. "
+              "cancel_all_streams issued at every point of the streams' poll steps (before the first poll, between consume and waker registration, while parked, with events buffered), with a concurrent sender, "
               "streams dropped and ids reused, on all Uni and Multi channel kinds with 1..3 streams, from " + DET + "; TLC judges every history (a cancelled stream yields only what is buffered and ends; none stays parked; "
               "running count exact). Ending a single stream (flush_and_cancel_executor) is covered with the tokio drivers of C12.",
-              "7 (C07)", "TLC trace validation of real executions (deterministic scheduler) against the L1 TLA+ specs"),
+              "7 (C07)", "TLA+ L2 specs UniChan / MultiChan checked by TLC, transition covers replayed into the real channels; TLC trace validation of real executions (deterministic scheduler) against the L2 and L1 TLA+ specs"),
     "C08": _c("Random histories of reserve / fill / send-reserved / cancel (reverse order) / plain send / receive ending in a capacity probe, on the three Uni channels that implement the API, from every sequence origin in a window "
               "around 2^32, plus a reserving producer against a concurrently polling consumer; the reservation actions of RingAtomic are model-checked from every origin (C15); histories validated by TLC against Trace_AbsUni "
               "(sent slots deliver what was written, cancelled vanish, exactly BUFFER_SIZE accepted afterwards, no panic).",
@@ -49,9 +52,10 @@ CLAIMED = {
     "C09": _c("The real mmap-log Multi channel: two publishers racing with late subscriptions (new only / joined / old+new split) and listeners consuming at their own pace, from " + DET +
               "; TLC validates every history against Trace_AbsMulti: full replay for joined listeners, the same total order for all listeners, each producer's order, the split pair partitions the history, same address for one event.",
               "7 (C09)", "TLC trace validation of real executions (deterministic scheduler) against the L1 TLA+ spec Trace_AbsMulti"),
-    "C10": _c("Random sequential histories of create-listener / send / receive / drop (with or without leftovers) / running-count on the five non-log Multi channels for MAX_STREAMS 1, 2, 4, and create/drop bookkeeping cycles on the "
+    "C10": _c("MultiChan (TLA+, implementation shaped: one AtomicMove ring per listener + the fan-out loop over the live-listener list + create_stream_id / drop_resources / report_stream_dropped / the in-place list rebuild + wake / waker registration / cancel + the executor tasks, one action per scheduling point) is checked exhaustively by TLC, and every transition of its state graph (small configurations) is replayed into the real Arc-based atomic Multi channel, each replay validated scheduling point by scheduling point against MultiChan (Trace_MultiChan) and judged by the L1 oracle. "
+              "Random sequential histories of create-listener / send / receive / drop (with or without leftovers) / running-count on the five non-log Multi channels for MAX_STREAMS 1, 2, 4, and create/drop bookkeeping cycles on the "
               "five Uni channels; TLC validates against Trace_AbsMulti / Trace_AbsUni: a listener yields only events accepted during its lifetime, ids recycle, running count = live streams.",
-              "7 (C10), 8 (D5)", "TLC trace validation of real executions against the L1 TLA+ specs"),
+              "7 (C10), 8 (D5)", "TLA+ L2 spec MultiChan (create / drop / id recycling) checked by TLC, transition cover replayed into the real channel; TLC trace validation of real executions against the L2 and L1 TLA+ specs"),
     "C11": _c("Executor (TLA+): for_each / for_each_concurrent accounting model checked by TLC (in-flight <= limit, one outcome per item, error callback exactly once, counters add up, close after the last item); the real "
               "StreamExecutor in all five spawn variants x timeout on/off x instruments x limits 1..3, every item sequence over {ok, err, slow, slowerr} up to length 3 (4 thorough) with gated item futures released out of order, "
               "on the paused-clock and the multi-thread runtime; logged events validated by TLC against Trace_AbsExecutor.",
@@ -79,10 +83,11 @@ CLAIMED = {
               "channels; TLC validates each history against Trace_AbsUni / Trace_AbsMulti: a send is rejected only if all slots are taken at some instant (LinQueue capacity rule), the rejected setter is un-invoked, "
               "pending count unchanged, no thread stalls, exactly BUFFER_SIZE events are accepted again in every cycle (capacity probe).",
               "7 (C16)", "TLC trace validation of real executions (deterministic scheduler) against the L1 TLA+ specs (LinQueue capacity rule)"),
-    "C17": _c("A producer fanning out two events while another thread creates or drops a listener (2..3 pre-existing listeners, MAX_STREAMS 4; yield points inside the sender loops and inside the live-list rebuild let the "
+    "C17": _c("MultiChan (TLA+, implementation shaped: one AtomicMove ring per listener + the fan-out loop over the live-listener list + create_stream_id / drop_resources / report_stream_dropped / the in-place list rebuild + wake / waker registration / cancel + the executor tasks, one action per scheduling point) is checked exhaustively by TLC, and every transition of its state graph (small configurations) is replayed into the real Arc-based atomic Multi channel, each replay validated scheduling point by scheduling point against MultiChan (Trace_MultiChan) and judged by the L1 oracle. "
+              "A producer fanning out two events while another thread creates or drops a listener (2..3 pre-existing listeners, MAX_STREAMS 4; yield points inside the sender loops and inside the live-list rebuild let the "
               "scheduler interleave them entry by entry) on all six Multi channel kinds; TLC validates against Trace_AbsMulti: listeners that exist throughout get every event once and in order, the added / removed listener a "
               "gap-free suffix / prefix, no payload storage stays occupied (capacity probe), nothing is used after free.",
-              "7 (C17), 8 (D6)", "TLC trace validation of real executions (deterministic scheduler) against the L1 TLA+ spec Trace_AbsMulti; known finding recorded for sends overlapping churn"),
+              "7 (C17), 8 (D6)", "TLC trace validation of real executions (deterministic scheduler) against the L2 spec MultiChan (checked by TLC; counterexample = the recorded finding) and the L1 TLA+ spec Trace_AbsMulti; known finding recorded for sends overlapping churn"),
     "C18": _c("TLC exhaustively checks SpinStack (the atomic-flag stack: swap / each plain access of the critical region / store as separate actions) and the rings under the two non-blocking queues against the LinQueue monitor "
               "(lifo / fifo, 'full' and 'empty' answers justified at an instant of the call); executions of the real atomic-flag stack under the deterministic scheduler are validated against SpinStack, those of the two "
               "NonBlockingQueues against the L1 monitor; all four containers (incl. the parking-lot stack) are additionally run free on 16 cores, call/return stamped from one global counter, and the merged histories are "
